@@ -12,6 +12,7 @@ import (
 	"hash"
 	"hash/fnv"
 	"math/big"
+	"os"
 
 	actypes "github.com/artela-network/aspect-core/types"
 	avm "github.com/artela-network/artela-evm/vm"
@@ -159,6 +160,9 @@ func NewLog() *Log {
 	return &Log{dig: sha256.New(), Faults: map[string]int{}, Probes: map[string]int{}}
 }
 
+// dumpEvents (VERIF_DUMP=1, replay only) prints every event to stderr as it is recorded.
+var dumpEvents = os.Getenv("VERIF_DUMP") != ""
+
 func (l *Log) Add(e Ev) *Ev {
 	e.Seq = l.n
 	l.n++
@@ -167,6 +171,9 @@ func (l *Log) Add(e Ev) *Ev {
 	binary.LittleEndian.PutUint64(b[:], uint64(len(s)))
 	l.dig.Write(b[:])
 	l.dig.Write([]byte(s))
+	if dumpEvents {
+		fmt.Fprintf(os.Stderr, "ev %d %s\n", e.Seq, s)
+	}
 	var p *Ev
 	if l.lite {
 		p = &e
